@@ -453,14 +453,15 @@ static void cmd_lq(void) {
 // length discovery alone, for every buffer length 1..maxlen (first byte given, rest zero)
 static void cmd_lens(void) {
     int kind = kind_of(arg(1)); bool c = argi(2) != 0; int fb = (int) argi(3); size_t maxlen = (size_t) argu(4);
-    for (size_t n = 1; n <= maxlen; n++) {
+    size_t first = g_ntok > 5 ? (size_t) argu(5) : 1;
+    for (size_t n = first; n <= maxlen; n++) {
         Buf b = buf_alloc(n); memset(b.p, 0, n); b.p[0] = (uint8_t) fb;
         int r = kind == WPARAMS ? embedded_pairing_wkdibe_params_unmarshalled_length(b.p, n, c) : embedded_pairing_wkdibe_secretkey_unmarshalled_length(b.p, n, c);
         Objects o; memset(&o, 0, sizeof o); o.wp.l = -9; o.wsk.l = -9;
         int r2 = kind == WPARAMS ? embedded_pairing_wkdibe_params_set_length(&o.wp, b.p, n, c) : embedded_pairing_wkdibe_secretkey_set_length(&o.wsk, b.p, n, c);
         int stored = kind == WPARAMS ? o.wp.l : o.wsk.l;
         // set_length must agree with unmarshalled_length and store the count only on success
-        if (r2 != r || stored != (r == -1 ? -9 : r)) printf(n == 1 ? " X%d" : ",X%d", r); else printf(n == 1 ? " %d" : ",%d", r);
+        if (r2 != r || stored != (r == -1 ? -9 : r)) printf(n == first ? " X%d" : ",X%d", r); else printf(n == first ? " %d" : ",%d", r);
         buf_free(b);
     }
 }
